@@ -503,3 +503,97 @@ def run(chk):
     _canon_rule(chk, prog)
     _sealed_rule(chk, prog)
     _structfill_rule(chk, prog)
+    _hashlast_rule(chk, prog)
+    _eqlen_rule(chk, prog)
+
+
+def _hashlast_rule(chk, prog):
+    """The stored hash of a string / tuple / struct is computed once, by its `end` function, from what the object
+    holds at that moment - for a struct that includes the prototype.  Anything stored into the object after that
+    computation is not in the hash: two equal values then carry different hashes and stop being equal / finding
+    each other as keys."""
+    rule = "C03-HASHLAST"
+    chk.rule(rule, "the finishing functions compute the stored hash last: nothing that feeds it is stored into the object afterwards")
+    HASHM = ("janet_struct_hash", "janet_tuple_hash", "janet_string_hash")
+    FEED = ("janet_struct_proto", "janet_struct_length", "janet_struct_capacity", "janet_tuple_length", "janet_string_length")
+    n = 0
+    for fn in prog.all_funcs():
+        hs = []
+        for x in fn.nodes:
+            if x.k == "asg" and x.op == "=" and (any(x.kids[0].in_macro(m) for m in HASHM) or (x.kids[0].k == "mem" and x.kids[0].field == "hash")):
+                calls = [c for c in x.kids[1].walk() if c.k == "call" and (c.callee or "").endswith("calchash")]
+                if not calls:
+                    continue
+                obj = [r.name for r in x.kids[0].walk() if r.k == "ref" and r.d.get("d") in ("var", "parm")]
+                src = [r.name for r in calls[0].args[0].walk() if r.k == "ref"] if calls[0].args else []
+                if obj and obj[0] in src:
+                    hs.append((x, obj[0]))
+        if not hs:
+            continue
+        chk.analysed(fn)
+        ids = {x.id: o for x, o in hs}
+
+        def transfer(st, x):
+            if x.id in ids:
+                return st | frozenset([ids[x.id]])
+            # the object variable is re-pointed (struct_end rebuilds into a new struct before hashing)
+            if x.k == "asg" and x.op == "=" and is_ref(x.kids[0]) and x.kids[0].name in st:
+                return st - frozenset([x.kids[0].name])
+            return st
+        IN, OUT = flow.forward(fn, frozenset(), transfer, lambda a, b: a | b)
+        bad = None
+        for x, st in flow.states_at(fn, IN, transfer):
+            if not st or x.k != "asg" or x.id in ids:
+                continue
+            lhs = x.kids[0]
+            base = [r.name for r in lhs.walk() if r.k == "ref" and r.d.get("d") in ("var", "parm")]
+            if not base or base[0] not in st:
+                continue
+            if any(lhs.in_macro(m) for m in HASHM) or (lhs.k == "mem" and lhs.field == "hash"):
+                continue      # folding more into the hash itself
+            if any(lhs.in_macro(m) for m in FEED) or lhs.k in ("sub", "mem", "un"):
+                bad = x
+        for x, o in hs:
+            n += 1
+            chk.instance(rule)
+            if bad is not None:
+                chk.violation(rule, fn.tu.name, fn.name, "after-hash:%s" % o, bad.loc,
+                              "`%s` stores into `%s` after its hash was computed (`%s`): the stored hash does not cover the value, so "
+                              "equal objects end up with different hashes" % (bad.text()[:60], o, x.text()[:50]))
+            else:
+                chk.ok(rule, "%s: nothing stored into `%s` after `%s`" % (fn.name, o, x.text()[:40]))
+    chk.floor(rule, 3, n)
+
+
+def _eqlen_rule(chk, prog):
+    """janet_equals walks tuples and structs pairwise through the traversal stack in its non-ordering mode, in which
+    traversal_next stops at the shorter one without reporting the length difference - so lengths must have been
+    compared before the pair is pushed."""
+    rule = "C03-EQLEN"
+    chk.rule(rule, "janet_equals pushes a tuple / struct pair for pairwise traversal only after their lengths compared equal")
+    fn = prog.need_func("janet_equals", "value.c")
+    chk.analysed(fn)
+    pushes = [x for x in fn.nodes if x.k == "call" and x.callee == "push_traversal_node"]
+    if len(pushes) < 2:
+        raise AnalysisBroken("janet_equals: expected two push_traversal_node sites, found %d" % len(pushes))
+    IN, T = flow.condition_facts(fn)
+    for x, S in flow.states_at(fn, IN, T):
+        if x not in pushes:
+            continue
+        chk.instance(rule)
+        ok = bool(S)
+        for ps in S:
+            good = False
+            for (op, l, r, toks, ln, rn) in ps:
+                if op == "==" and ln is not None and rn is not None and \
+                        any(m.endswith("_length") for m in ln.macro_names()) and any(m.endswith("_length") for m in rn.macro_names()):
+                    good = True
+            if not good:
+                ok = False
+        kind = "tuple" if any("tuple" in m for a in x.args for y in a.walk() for m in y.macro_names()) else "struct"
+        if ok:
+            chk.ok(rule, "janet_equals: %s pair pushed only with equal lengths" % kind)
+        else:
+            chk.violation(rule, "value.c", "janet_equals", "length:%s" % kind, x.loc,
+                          "`%s` is reached on a path that has not compared the two lengths: the pairwise walk ends at the shorter "
+                          "value and a %s equals any longer one that starts with it (given equal stored hashes)" % (x.text()[:60], kind))
